@@ -12,7 +12,12 @@ from concurrent.futures import ThreadPoolExecutor
 from fractions import Fraction
 
 ROOT = "/verif"
-BUILD = os.path.join(ROOT, ".build")
+# VERIF_REPO: which checkout of velikodniy/cgt-tool to verify. The registered commands always use /repo itself;
+# a scratch worktree can be named here to try a seeded change without touching /repo (shadow copies of the
+# harness manifests are generated with the paths rewritten, with their own target directories).
+REPO = os.path.realpath(os.environ.get("VERIF_REPO", "/repo"))
+SHADOW = REPO != "/repo"
+BUILD = os.path.join(ROOT, ".build") if not SHADOW else os.path.join(ROOT, ".build", "shadow", REPO.strip("/").replace("/", "_"))
 Z3LIB = "/opt/veriftools/pyvenv/lib/python3.11/site-packages/z3/lib"
 NPROC = int(os.environ.get("VERIF_JOBS", "16"))
 
@@ -38,7 +43,7 @@ def cargo_build(crate_dir, target, features=None):
     os.makedirs(BUILD, exist_ok=True)
     lock = os.path.join(crate_dir, "Cargo.lock")
     if not os.path.exists(lock):
-        shutil.copy("/repo/Cargo.lock", lock)
+        shutil.copy(os.path.join(REPO, "Cargo.lock"), lock)
     cmd = ["cargo", "build", "--offline", "--release"]
     e = env()
     e["CARGO_TARGET_DIR"] = os.path.join(BUILD, target)
@@ -50,11 +55,29 @@ def cargo_build(crate_dir, target, features=None):
         raise BuildError(f"cargo build failed in {crate_dir}:\n{tail}")
 
 
+def crate_dirs():
+    if not SHADOW:
+        return os.path.join(ROOT, "symx/harness"), os.path.join(ROOT, "symx/replay")
+    dst = os.path.join(BUILD, "symx-src")
+    shutil.rmtree(dst, ignore_errors=True)
+    shutil.copytree(os.path.join(ROOT, "symx"), dst, ignore=shutil.ignore_patterns("target", "Cargo.lock"))
+    for sub in ("harness", "replay"):
+        for fn in ("Cargo.toml", "build.rs"):
+            p = os.path.join(dst, sub, fn)
+            if os.path.exists(p):
+                txt = open(p).read().replace("/repo/", REPO + "/")
+                open(p, "w").write(txt)
+        shutil.copy(os.path.join(REPO, "Cargo.lock"), os.path.join(dst, sub, "Cargo.lock"))
+    return os.path.join(dst, "harness"), os.path.join(dst, "replay")
+
+
 def build_all():
     t0 = time.time()
+    os.makedirs(BUILD, exist_ok=True)
+    hd, rd = crate_dirs()
     with ThreadPoolExecutor(2) as ex:
-        a = ex.submit(cargo_build, os.path.join(ROOT, "symx/harness"), "symx")
-        b = ex.submit(cargo_build, os.path.join(ROOT, "symx/replay"), "replay")
+        a = ex.submit(cargo_build, hd, "symx")
+        b = ex.submit(cargo_build, rd, "replay")
         a.result()
         b.result()
     return time.time() - t0
